@@ -719,4 +719,27 @@ theorem constructDispatch_eq (frame : Bytes) : Codec.constructDispatch frame = M
   | rfl
 
 
+/-! ### Discover._get_device_version -/
+
+/-- **tie.** `Discover._get_device_version` as translated (the XML parser's verdict is an input) = the model's, for every datagram. -/
+theorem getDeviceVersion_eq (isXml : Bool) (data : Bytes) :
+    Codec.getDeviceVersion isXml data = (Model.getDeviceVersion isXml data).map (fun n => (n : Int)) := by
+  first
+  | (
+       unfold Codec.getDeviceVersion Model.getDeviceVersion
+       rw [sl_take2]
+       cases isXml with
+       | true => rfl
+       | false =>
+         simp only [Bool.false_eq_true, if_false]
+         by_cases h2 : List.take 2 data = [0x5A, 0x5A]
+         · have : ¬ (List.take 2 data ≠ [0x5A, 0x5A]) := fun h => h h2
+           rw [if_pos h2, if_neg (by ne_neg this)]; rfl
+         · rw [if_neg h2, if_pos (by ne_pos h2)]
+           by_cases h3 : List.take 2 data = [0x83, 0x70]
+           · have : ¬ (List.take 2 data ≠ [0x83, 0x70]) := fun h => h h3
+             rw [if_pos h3, if_neg (by ne_neg this)]; rfl
+           · rw [if_neg h3, if_pos (by ne_pos h3)]; rfl)
+  | rfl
+
 end Msmart.CodecEq
